@@ -7,7 +7,7 @@ from datetime import date, datetime, timezone
 BOUND = {
     "quick": "every FREQ x {COUNT, UNTIL date / floating / UTC, none} x INTERVAL x one or two BYxxx parts with single / multiple, positive / "
              "negative values, ordinal weekdays, WKST, leap-month BYMONTH, SKIP/RSCALE, keys in any case, scalar or list values (600 seeded "
-             "rules): grammar, FREQ first, decode == parts, re-encode identical, dateutil occurrences (first 40) equal",
+             "rules): grammar, FREQ first, decode == parts, re-encode identical, dateutil occurrences (first 40, 0.5 s budget per expansion) equal",
     "thorough": "8000 seeded rules",
 }
 RECUR = re.compile(r"(?:RSCALE=[A-Z]+;)?FREQ=(?:SECONDLY|MINUTELY|HOURLY|DAILY|WEEKLY|MONTHLY|YEARLY)(?:;[A-Z-]+=[^;=]+)*")
@@ -73,6 +73,28 @@ def rules(tier, seed):
         yield r
 
 
+class _Timeout(Exception):
+    pass
+
+
+def limited(thunk, seconds=0.5):
+    """dateutil can search (practically) forever for rules whose parts exclude each other: give every expansion a time budget; an
+    expansion that does not finish is skipped (None), never reported"""
+    import signal
+
+    def on_alarm(signum, frame):
+        raise _Timeout()
+    old = signal.signal(signal.SIGALRM, on_alarm)
+    signal.setitimer(signal.ITIMER_REAL, seconds)
+    try:
+        return thunk()
+    except _Timeout:
+        return None
+    finally:
+        signal.setitimer(signal.ITIMER_REAL, 0)
+        signal.signal(signal.SIGALRM, old)
+
+
 def norm_vals(v):
     from icalendar import prop
     vs = v if isinstance(v, (list, tuple)) else [v]
@@ -121,11 +143,11 @@ def check(rule):
             start = datetime(2024, 1, 1, 9, 0, 0, tzinfo=timezone.utc) if "Z" in text else datetime(2024, 1, 1, 9, 0, 0)
             if "UNTIL=20300101;" in text + ";" and "T" not in text.split("UNTIL=")[1].split(";")[0]:
                 start = datetime(2024, 1, 1, 9, 0, 0)
-            a = list(itertools.islice(rrulestr(text, dtstart=start), 40))
+            a = limited(lambda: list(itertools.islice(rrulestr(text, dtstart=start), 40)))
             supplied = ";".join(f"{k.upper()}=" + ",".join(prop.vRecur.types.get(k, prop.vText)(x).to_ical().decode() for x in norm_vals(v))
                                 for k, v in sorted(rule.items(), key=lambda kv: (kv[0].upper() != "FREQ", kv[0].upper())))
-            b = list(itertools.islice(rrulestr(supplied, dtstart=start), 40))
-            if a != b:
+            b = limited(lambda: list(itertools.islice(rrulestr(supplied, dtstart=start), 40)))
+            if a is not None and b is not None and a != b:
                 msgs.append("the expander computes different occurrences from the encoded text")
         except (ValueError, TypeError):
             pass
